@@ -1,7 +1,7 @@
 (* C09 -- the generic stropping theorems instantiated with the configuration regenerated from /repo
    (Generated/Gen_Strop.v) and the Unicode tables of the running interpreter (Generated/Gen_Uni.v).
    The side conditions are recomputed by vm_compute from the regenerated data on every build. *)
-From Verif Require Import StropInst StropThmRe StropThmEnc StropThm StropThmId StropThmPipe StropThmHandler.
+From Verif Require Import StropInst StropThmRe StropThmEnc StropThm StropThmId StropThmPipe StropThmHandler StropThmTotal StropThmCache.
 Open Scope N_scope.
 
 Lemma chk_sound_c : chk_sound py_uni cfg_c = true.     Proof. vm_compute; reflexivity. Qed.
@@ -60,23 +60,17 @@ Lemma strop_id_cpp_refuted_thm :
   exists ty t, str_eqb (lower ty) ty_all = false /\ clean_lang LCpp ty t = true /\ strop_cpp ty t <> Ok t.
 Proof. exists ty_any, [95; 95; 120]. vm_compute. repeat split; discriminate. Qed.
 
-(* ---- the lru_cache never changes what a call returns ---- *)
-Definition cache_ok (l : lang) (c : cache) : Prop :=
-  forall tok ty v, cache_find c (tok, ty) = Some v -> strop_lang l ty tok = Ok v.
+(* ---- the lru_cache shared by all encoders of a process never changes what a call returns ---- *)
+Definition enc2 (A B : strop_cfg) (i : nat) : strop_cfg := match i with O => A | S _ => B end.
 
-Lemma ckey_eqb_eq a b : ckey_eqb a b = true -> a = b.
-Proof.
-  destruct a as [a1 a2], b as [b1 b2]. unfold ckey_eqb; cbn [fst snd]. intros H. apply andb_prop in H as [H1 H2].
-  destruct (str_eqb_spec a1 b1); [|discriminate]. destruct (str_eqb_spec a2 b2); [|discriminate]. congruence.
-Qed.
+Lemma lru_shared_transparent_thm (enc : nat -> strop_cfg) maxsize calls :
+  run_calls py_uni py_isspace enc maxsize [] calls = map (uncached py_uni py_isspace enc) calls.
+Proof. apply run_calls_from_empty. Qed.
 
-Lemma strop_cached_result l n c ty tok :
-  cache_ok l c -> snd (strop_cached py_uni py_isspace (cfg_of l) n c ty tok) = strop_lang l ty tok.
-Proof.
-  intros Hc. unfold strop_cached. destruct (cache_find c (tok, ty)) as [v|] eqn:E.
-  - cbn [snd]. symmetry. apply Hc; exact E.
-  - fold (strop_lang l ty tok). destruct (strop_lang l ty tok); reflexivity.
-Qed.
+Lemma two_encoders_isolated_thm (A B : strop_cfg) maxsize calls :
+  run_calls py_uni py_isspace (enc2 A B) maxsize [] calls
+  = map (fun k : skey => strop py_uni py_isspace (match fst (fst k) with O => A | S _ => B end) (snd k) (snd (fst k))) calls.
+Proof. rewrite run_calls_from_empty. reflexivity. Qed.
 
 (* ---- configuration overrides ----
    In a tree whose strop re-verifies what it returns (sc_reverify = true: the fix for F-STROP-HANDLER-UNVERIFIED) soundness needs
@@ -89,45 +83,9 @@ Proof.
   intros Hr Hb. apply strop_sound_gen. unfold chk_sound. rewrite Hb, Hr. reflexivity.
 Qed.
 
-(* The quirk-faithful model of a tree WITHOUT the final re-verification (sc_reverify := false), C configuration with
-   reserved_identifiers overridden to ["a"; "_a"]:  "a" -> "_a" (keyword) -> dry-run keyword check fails -> handler returns "_a"
-   unchanged -> returned although reserved.  The side condition chk_sound excludes exactly this. *)
-Definition cfg_c_override : strop_cfg :=
-  {| sc_reserved := [[97]; [95; 97]]; sc_patterns := sc_patterns cfg_c; sc_rules := sc_rules cfg_c;
-     sc_prefix := sc_prefix cfg_c; sc_suffix := sc_suffix cfg_c; sc_enc_prefix := sc_enc_prefix cfg_c;
-     sc_ws_char := sc_ws_char cfg_c; sc_collapse := sc_collapse cfg_c;
-     sc_strop_handler := sc_strop_handler cfg_c; sc_enc_handler := sc_enc_handler cfg_c; sc_reverify := false |}.
-
-Lemma strop_sound_override_refuted_thm :
-  exists ty s t, s <> [] /\ strop py_uni py_isspace cfg_c_override ty s = Ok t /\ is_reserved cfg_c_override t = true.
-Proof. exists ty_any, [97], [95; 97]. split; [discriminate|]. vm_compute. split; reflexivity. Qed.
-
-Lemma chk_sound_override_false : chk_sound py_uni cfg_c_override = false.
-Proof. vm_compute; reflexivity. Qed.
-
-(* the same override on the configuration /repo has NOW (sc_reverify as regenerated) *)
-Definition cfg_c_override_now : strop_cfg :=
-  {| sc_reserved := [[97]; [95; 97]]; sc_patterns := sc_patterns cfg_c; sc_rules := sc_rules cfg_c;
-     sc_prefix := sc_prefix cfg_c; sc_suffix := sc_suffix cfg_c; sc_enc_prefix := sc_enc_prefix cfg_c;
-     sc_ws_char := sc_ws_char cfg_c; sc_collapse := sc_collapse cfg_c;
-     sc_strop_handler := sc_strop_handler cfg_c; sc_enc_handler := sc_enc_handler cfg_c; sc_reverify := strop_reverifies |}.
-
-(* which of the two holds is decided by the regenerated flag: with the fix, every override with chk_base is sound (and the
-   witness override is rejected with RuntimeError); without it, the witness override returns the reserved `_a` *)
-Definition override_state : Prop :=
-  if strop_reverifies
-  then (forall l, sc_reverify (cfg_of l) = true)
-       /\ chk_sound py_uni cfg_c_override_now = true
-       /\ strop py_uni py_isspace cfg_c_override_now ty_any [97] = ErrRuntime
-  else strop py_uni py_isspace cfg_c_override_now ty_any [97] = Ok [95; 97] /\ is_reserved cfg_c_override_now [95; 97] = true.
-
-Lemma override_state_thm : override_state.
-Proof.
-  unfold override_state. destruct strop_reverifies eqn:E.
-  - first [vm_compute in E; discriminate E
-          |split; [intros l; destruct l; vm_compute; reflexivity|split; vm_compute; reflexivity]].
-  - first [vm_compute in E; discriminate E|split; vm_compute; reflexivity].
-Qed.
+(* /repo re-verifies the token strop returns (fix 2e53e9f); the quirk model of the tree before it: History/C09_history.v *)
+Lemma strop_reverified_now_thm : strop_reverifies = true /\ forall l, sc_reverify (cfg_of l) = true.
+Proof. split; [reflexivity|intros []; reflexivity]. Qed.
 
 (* ---- Python's reserved list covers keyword.kwlist + dir(builtins) of the interpreter (independent table) ---- *)
 Lemma py_reserved_covers_interpreter_thm :
@@ -181,4 +139,57 @@ Lemma handlers_translated_und_thm h : In h handlers_translated ->
   forall s, handler_gen py_uni (fst (fst h)) (snd (fst h)) (snd h) s = handler_und s.
 Proof.
   rewrite handlers_are_model_thm. intros Hin s. apply repeat_spec in Hin. subst h. apply handler_gen_is_und.
+Qed.
+
+(* ---- totality on the shipped configurations (side conditions recomputed from the regenerated data) ---- *)
+Ltac total_side := first [vm_compute; reflexivity | intros _; split; vm_compute; reflexivity | intros H; vm_compute in H; discriminate H].
+
+Lemma strop_total_c_thm ty s : s <> [] -> str_eqb (lower ty) ty_all = false -> exists t, strop_c ty s = Ok t.
+Proof. apply (strop_total_gen py_uni py_isspace cfg_c false); total_side. Qed.
+
+Lemma strop_total_cpp_thm ty s : s <> [] -> str_eqb (lower ty) ty_all = false -> exists t, strop_cpp ty s = Ok t.
+Proof. apply (strop_total_gen py_uni py_isspace cfg_cpp true); total_side. Qed.
+
+Lemma strop_total_py_thm ty s : s <> [] -> str_eqb (lower ty) ty_all = false -> exists t, strop_py ty s = Ok t.
+Proof. apply (strop_total_gen py_uni py_isspace cfg_py false); total_side. Qed.
+
+Lemma strop_total_lang l ty s : s <> [] -> str_eqb (lower ty) ty_all = false -> exists t, strop_lang l ty s = Ok t.
+Proof. destruct l; [apply strop_total_c_thm|apply strop_total_cpp_thm|apply strop_total_py_thm]. Qed.
+
+(* every DSDL name ([A-Za-z_][A-Za-z0-9_]*, any length; pydsdl only removes names from this set) gets a token, and the
+   token is a valid identifier, not reserved, free of reserved patterns *)
+Lemma strop_dsdl_ident_thm l ty s : valid_ident s = true -> str_eqb (lower ty) ty_all = false ->
+  exists t, strop_lang l ty s = Ok t /\ valid_ident t = true /\ reserved_lang l t = false /\ pattern_lang l ty t = false.
+Proof.
+  intros Hv Hty. assert (Hne : s <> []) by (destruct s; [discriminate|discriminate]).
+  destruct (strop_total_lang l ty s Hne Hty) as (t & Ht). exists t; split; [exact Ht|].
+  exact (strop_sound_lang l ty s t Hne Ht).
+Qed.
+
+(* the exact set of outcomes: a token, or ValueError for the type `all`; RuntimeError never *)
+Lemma strop_outcomes_thm l ty s : s <> [] ->
+  (str_eqb (lower ty) ty_all = true /\ strop_lang l ty s = ErrValue) \/ (str_eqb (lower ty) ty_all = false /\ exists t, strop_lang l ty s = Ok t).
+Proof.
+  intros Hne. destruct (str_eqb (lower ty) ty_all) eqn:E.
+  - left; split; [reflexivity|]. unfold strop_lang, strop. rewrite E. reflexivity.
+  - right; split; [reflexivity|]. apply strop_total_lang; assumption.
+Qed.
+
+(* ---- distinctness.  NOT part of C09's statement and false in general: a reserved word and its stropped form collide.
+        What does hold: on clean names strop is the identity, hence injective (full alphabet, no length bound). ---- *)
+Lemma strop_injective_refuted_thm :
+  exists l ty s1 s2 t, s1 <> s2 /\ valid_ident s1 = true /\ valid_ident s2 = true
+                       /\ strop_lang l ty s1 = Ok t /\ strop_lang l ty s2 = Ok t.
+Proof. exists LC, ty_any, [105; 102], [95; 105; 102], [95; 105; 102]. vm_compute. repeat split; discriminate || reflexivity. Qed.
+
+Lemma strop_injective_on_clean_thm l ty s1 s2 :
+  str_eqb (lower ty) ty_all = false -> clean_lang l ty s1 = true -> clean_lang l ty s2 = true ->
+  (l = LCpp -> has_dunder s1 = false /\ has_dunder s2 = false) ->
+  strop_lang l ty s1 = strop_lang l ty s2 -> s1 = s2.
+Proof.
+  intros Hty H1 H2 Hd E. destruct l.
+  - change (strop_c ty s1 = strop_c ty s2) in E. rewrite (strop_id_c_thm ty s1 Hty H1), (strop_id_c_thm ty s2 Hty H2) in E. congruence.
+  - destruct (Hd eq_refl) as [D1 D2]. change (strop_cpp ty s1 = strop_cpp ty s2) in E.
+    rewrite (strop_id_cpp_partial_thm ty s1 Hty H1 D1), (strop_id_cpp_partial_thm ty s2 Hty H2 D2) in E. congruence.
+  - change (strop_py ty s1 = strop_py ty s2) in E. rewrite (strop_id_py_thm ty s1 Hty H1), (strop_id_py_thm ty s2 Hty H2) in E. congruence.
 Qed.
